@@ -19,6 +19,7 @@ def mockValue (p : Path) : Datum :=
     if startsWith last.name "ll" then .slice [(toString (h % 7)).toList, ("w" ++ toString h).toList]
     else if startsWith last.name "ab" then .emptyNodeset
     else if startsWith last.name "n" then .lit (toString (h % 50)).toList
+    else if startsWith last.name "x" then .lit ("0" ++ toString (h % 100) ++ ".0").toList
     else .lit ("v" ++ toString h).toList
 
 def mockDeref (p : Path) : Path :=
